@@ -104,6 +104,15 @@ impl SymbolTable {
         symbol
     }
 
+    /// Forget the bindings of a block that has just ended: every symbol
+    /// defined deeper than 'depth' goes out of scope.
+    pub fn leave_block(&mut self, depth: usize) {
+        for symbols in self.store.values_mut() {
+            symbols.retain(|s| s.depth <= depth || s.scope == SymbolScope::Free);
+        }
+        self.store.retain(|_, symbols| !symbols.is_empty());
+    }
+
     pub fn define_function_name(&mut self, name: &str) -> Rc<Symbol> {
         let symbol = Rc::new(Symbol::new(name, SymbolScope::Function, 0, 0));
         self.store
@@ -122,12 +131,17 @@ impl SymbolTable {
     pub fn resolve(&mut self, name: &str, depth: usize) -> Option<Rc<Symbol>> {
         if let Some(symbols) = self.store.get(name) {
             for symbol in symbols.iter().rev() {
-                if symbol.depth <= depth {
+                // A captured variable keeps the depth it has in the enclosing
+                // function; here it is visible in the whole function.
+                if symbol.depth <= depth || symbol.scope == SymbolScope::Free {
                     return Some(Rc::clone(symbol));
                 }
             }
-        } else if let Some(outer) = &mut self.outer {
-            if let Some(obj) = outer.resolve(name, depth) {
+        }
+        if let Some(outer) = &mut self.outer {
+            // 'depth' counts blocks of the current function only. Whatever
+            // is still defined in an enclosing function is visible here.
+            if let Some(obj) = outer.resolve(name, usize::MAX) {
                 if matches!(
                     obj.scope,
                     SymbolScope::Global | SymbolScope::BuiltinFn | SymbolScope::BuiltinVar
@@ -166,7 +180,10 @@ impl SymbolTable {
             original.depth,
         ));
 
-        self.store.insert(symbol.name.clone(), vec![symbol.clone()]);
+        self.store
+            .entry(symbol.name.clone())
+            .or_default()
+            .insert(0, symbol.clone());
 
         symbol
     }
